@@ -213,6 +213,17 @@ theorem exec_bcond (s : State) (c : Cond) (t : Nat) :
 
 theorem exec_ret (s : State) (r : Reg) : exec s (.ret r) = { s with pc := (s.get r).toNat, status := .halted } := rfl
 
+/-! ### conditions -/
+
+theorem cond_cs (s : State) : s.cond .cs = s.cf := rfl
+theorem cond_cc (s : State) : s.cond .cc = s.cf.map (!·) := rfl
+theorem cond_hi (s : State) :
+    s.cond .hi = match s.cf, s.zf with
+      | some c, some z => some (c && !z)
+      | _, _ => none := by
+  show (do let c ← s.cf; let z ← s.zf; pure (c && !z)) = _
+  cases s.cf <;> cases s.zf <;> rfl
+
 /-! ### addresses -/
 
 theorem addr_post_x (s : State) (r : Reg) (imm : Int) :
@@ -297,7 +308,7 @@ macro "a64_sym" " [" extra:Lean.Parser.Tactic.simpLemma,* "]" loc:(Lean.Parser.T
   `(tactic| simp (maxSteps := 4000000) (disch := a64_disch) only [runStep, step, fetchInstr,
     exec_addsubReg, exec_addsubsImm, exec_adcsbc, exec_mul, exec_umulh, exec_csel, exec_ldp, exec_stp, exec_bcond, exec_ret,
     State.getZ, State.setZ, State.getSP, State.setSP, State.get, State.set, State.writeback, State.next, State.setFlags,
-    State.cond, addsub, Option.getD_none, Option.getD_some, Option.map_some, if_true, if_false, ite_true, ite_false,
+    cond_cs, cond_cc, cond_hi, addsub, Option.getD_none, Option.getD_some, Option.map_some, if_true, if_false, ite_true, ite_false,
     Bool.false_eq_true, addr_post_x, addr_pre_sp, addr_post_sp, ofInt_16, add_ofInt_neg16, load_ok, store_ok, ea_toNat,
     sub16_toNat, sub16x2_toNat, sub16x3_toNat, sub16x4_toNat, sub16x5_toNat, sub16x6_toNat,
     BitVec.add_assoc, BitVec.reduceAdd, BitVec.sub_add_cancel, nat_add_add, Nat.reduceAdd,
